@@ -1,13 +1,16 @@
 package c06
 
 import (
+	"bytes"
 	"context"
+	"crypto/sha256"
 	"encoding/hex"
 	"errors"
 	"fmt"
 	"os"
 	"path/filepath"
 	"runtime/debug"
+	"sort"
 	"strings"
 	"testing"
 	"time"
@@ -68,7 +71,7 @@ func (o *memOps) TryCommit(context.Context) (any, error) {
 // The same oracle through the command line: flags and SVN side files are part of the request.
 func TestSignedDocumentThroughCLI(t *testing.T) {
 	const name = "cli/document-vs-image"
-	ev.Rule(name, "the `endorse` command (cmd.MakeApp, fresh tree per run) over a generated firmware written to <dir>/<name>.fd with an SVN side file {absent, <name>.fd.scrtm.pb, <name>_scrtm_ver.pb} holding version 0..9 and flags --add_snp/--add_tdx, --snp_launch_vmsas, --snp_product, --snp_family_id, --snp_image_id, --tdx_machine_shapes, --tdx_include_early_accept, --svsm_snp_measurement_path (a 48-byte value as hex text, drawn in 1 of 3 SNP requests) with or without --svsm_path, --clspec, --commit, --timestamp; recording CA/signer and an in-memory version-control double; oracle: the committed endorsement's payload passes the same value-by-value comparison as document-vs-image, with the side file's SVN expected in EVERY requested technology section; non-trivial = both technologies or a side file present; distinct = (technologies, side-file kind, svn, request shape)")
+	ev.Rule(name, "the `endorse` command (cmd.MakeApp, fresh tree per run) over a generated firmware written to <dir>/<name>.fd with an SVN side file {absent, <name>.fd.scrtm.pb, <name>_scrtm_ver.pb} holding version 0..9 and flags --add_snp/--add_tdx, --snp_launch_vmsas, --snp_product, --snp_family_id, --snp_image_id, --tdx_machine_shapes, --tdx_include_early_accept, --svsm_snp_measurement_path (a 48-byte value as hex text, drawn in 1 of 3 SNP requests) with or without --svsm_path, --clspec, --commit, --timestamp, and the destination {manifest method, --candidate_name, --snapshot_dir}; one SNP request in ten carries a malformed family/image id (oracle: the command fails, the signer was not called, nothing is committed); recording CA/signer and an in-memory version-control double; oracle: every committed file that parses as a launch endorsement (at least one) was signed as is and its payload passes the same value-by-value comparison as document-vs-image, with the side file's SVN expected in EVERY requested technology section; non-trivial = both technologies or a side file with a non-zero version; distinct = (technologies, side-file kind, svn, request shape)")
 	checks(ev.Scale(250, 2500))
 	rapid.Check(t, func(t *rapid.T) {
 		r := genRequest(t)
@@ -76,12 +79,21 @@ func TestSignedDocumentThroughCLI(t *testing.T) {
 			r.svsm = nil
 		}
 		svsmImage := r.svsm != nil && rapid.Bool().Draw(t, "svsmImageToo")
-		r.badID = ""
+		if !r.sev {
+			r.badID = "" // the id flags are only passed with --add_snp
+		}
 		side := rapid.SampledFrom([]string{"none", "fd.scrtm.pb", "_scrtm_ver.pb"}).Draw(t, "sideFile")
-		svn := uint32(rapid.IntRange(0, 9).Draw(t, "sideSvn"))
+		// small versions mostly; multi-byte varints and the largest enum value now and then
+		svn := rapid.OneOf(rapid.Uint32Range(0, 9), rapid.Uint32Range(1, 9), rapid.SampledFrom([]uint32{127, 128, 255, 256, 65535, 1<<31 - 1})).Draw(t, "sideSvn")
 		if side == "none" {
 			svn = 0
 		}
+		// flags left at their defaults are part of the request space: no count given means all counts,
+		// no product given means Milan
+		omitVmsas := r.sev && r.vmsas == 0 && rapid.Bool().Draw(t, "omitVmsasFlag")
+		explicitMilan := r.sev && !r.genoa && rapid.Bool().Draw(t, "explicitMilan")
+		// where the endorsement goes: the manifest method (default name or a candidate name) or a snapshot
+		mode := rapid.SampledFrom([]string{"manifest", "manifest", "candidate", "snapshot"}).Draw(t, "mode")
 		r.svn, r.tdxSvn = svn, svn
 		// the command line carries whole seconds only when no fraction is given; keep nanoseconds
 		dir, err := os.MkdirTemp("", "c06-cli-")
@@ -125,15 +137,27 @@ func TestSignedDocumentThroughCLI(t *testing.T) {
 		app := rcmd.MakeApp(context.Background(), &rcmd.AppComponents{Endorse: comp, SignatureRandom: zeroReader{}, Storage: &local.StorageClient{}})
 		args := []string{"endorse", "--quiet", "--uefi", fw, "--out_dir", "out", "--timestamp", r.timestamp.Format(time.RFC3339Nano)}
 		if r.sev {
-			args = append(args, "--add_snp", fmt.Sprintf("--snp_launch_vmsas=%d", r.vmsas))
+			args = append(args, "--add_snp")
+			if !omitVmsas {
+				args = append(args, fmt.Sprintf("--snp_launch_vmsas=%d", r.vmsas))
+			}
 			if r.genoa {
 				args = append(args, "--snp_product=Genoa")
+			} else if explicitMilan {
+				args = append(args, "--snp_product=Milan")
 			}
-			if r.familyID != "" {
-				args = append(args, "--snp_family_id="+r.familyID)
+			fam, img := r.familyID, r.imageID
+			switch r.badID {
+			case "family":
+				fam = "not-a-uuid"
+			case "image":
+				img = "zzzzzzzz-zzzz"
 			}
-			if r.imageID != "" {
-				args = append(args, "--snp_image_id="+r.imageID)
+			if fam != "" {
+				args = append(args, "--snp_family_id="+fam)
+			}
+			if img != "" {
+				args = append(args, "--snp_image_id="+img)
 			}
 		}
 		if r.tdx {
@@ -172,6 +196,12 @@ func TestSignedDocumentThroughCLI(t *testing.T) {
 		if len(r.commit) != 0 {
 			args = append(args, "--commit="+hex.EncodeToString(r.commit))
 		}
+		switch mode {
+		case "candidate":
+			args = append(args, "--candidate_name=rc7")
+		case "snapshot":
+			args = append(args, "--snapshot_dir=snap")
+		}
 		app.SetArgs(args)
 		app.SilenceUsage, app.SilenceErrors = true, true
 		desc := fmt.Sprintf("args %v side-file %s svn %d", args[3:], side, svn)
@@ -189,29 +219,88 @@ func TestSignedDocumentThroughCLI(t *testing.T) {
 			ev.Violation(t, "C06/golden-measurement-panic", "%s: endorse panicked: %v", desc, pan)
 			return
 		}
+		if r.badID != "" {
+			// a malformed id: the command must fail and nothing may have been signed or committed
+			if runErr == nil {
+				ev.Violation(t, "C06/malformed-id-accepted", "%s: a malformed %s id was accepted", desc, r.badID)
+				return
+			}
+			if len(signer.digests) != 0 || len(vcs.files) != 0 {
+				ev.Violation(t, "C06/signed-despite-error", "%s: the request is malformed (%v) but the signer was called %d times and %d files were committed", desc, runErr, len(signer.digests), len(vcs.files))
+				return
+			}
+			ev.Case(name, false, "bad-id/"+r.badID+"/"+mode, "malformed-id-rejected", func() any { return map[string]any{"args": args[3:], "error": runErr.Error()} })
+			return
+		}
+		if runErr != nil && r.sev && r.vmsas != 0 && !supported(r.vmsas) {
+			ev.Class(name, "inconclusive/unsupported-count-rejected")
+			return
+		}
 		if runErr != nil {
 			ev.Violation(t, "C06/valid-request-rejected", "%s: endorse failed: %v", desc, runErr)
 			return
 		}
-		eb, ok := vcs.files["/vcs/out/endorsement.binarypb"]
-		if !ok {
-			ev.Violation(t, "C06/valid-request-rejected", "%s: no endorsement committed (files %v)", desc, len(vcs.files))
-			return
+		// Every committed file that is a launch endorsement is judged (the manifest method commits one, a
+		// snapshot with an SVSM image two copies); file names are the implementation's business.
+		var paths []string
+		for p := range vcs.files {
+			paths = append(paths, p)
 		}
-		e := &epb.VMLaunchEndorsement{}
-		payload := &epb.VMGoldenMeasurement{}
-		if proto.Unmarshal(eb, e) != nil || proto.Unmarshal(e.SerializedUefiGolden, payload) != nil {
-			ev.Violation(t, "C06/payload-unparsable", "%s: committed endorsement does not parse", desc)
-			return
-		}
-		if key, msg := checkGolden(payload, r, true, primary); key != "" {
-			if key == "harness" {
-				t.Fatalf("harness: %s", msg)
+		sort.Strings(paths)
+		found := 0
+		for _, p := range paths {
+			e := &epb.VMLaunchEndorsement{}
+			payload := &epb.VMGoldenMeasurement{}
+			if proto.Unmarshal(vcs.files[p], e) != nil || len(e.SerializedUefiGolden) == 0 || len(e.Signature) == 0 {
+				continue
 			}
-			ev.Violation(t, key, "%s: signed payload: %s", desc, msg)
+			if proto.Unmarshal(e.SerializedUefiGolden, payload) != nil || len(payload.Digest) != 48 {
+				continue
+			}
+			found++
+			if key, msg := checkGolden(payload, r, true, primary); key != "" {
+				if key == "harness" {
+					t.Fatalf("harness: %s", msg)
+				}
+				ev.Violation(t, key, "%s: signed payload in %s: %s", desc, p, msg)
+				return
+			}
+			d := sha256.Sum256(e.SerializedUefiGolden)
+			saw := false
+			for i := range signer.digests {
+				if bytes.Equal(signer.digests[i], d[:]) && signer.keys[i] == primary {
+					saw = true
+				}
+			}
+			if !saw {
+				ev.Violation(t, "C06/signed-bytes-differ-from-payload", "%s: %s carries a payload whose sha256 %x the signer never saw (%x)", desc, p, d, signer.digests)
+				return
+			}
+		}
+		if found == 0 {
+			ev.Violation(t, "C06/valid-request-rejected", "%s: no endorsement committed (files %v)", desc, paths)
 			return
 		}
-		ev.Case(name, (r.sev && r.tdx) || side != "none", fmt.Sprintf("%v|%v|%s|%d|%d|%d|%v|%v|%v", r.sev, r.tdx, side, svn, r.vmsas, len(r.shapes), r.early, r.svsm != nil, svsmImage), fmt.Sprintf("sev=%v/tdx=%v/side=%s", r.sev, r.tdx, side), func() any {
+		svsmClass := "svsm=none"
+		if r.svsm != nil {
+			svsmClass = "svsm=measurement-only"
+			if svsmImage {
+				svsmClass = "svsm=measurement+image"
+			}
+		}
+		ev.Class(name, svsmClass)
+		ev.Class(name, "mode="+mode)
+		if r.sev && r.vmsas == 0 {
+			ev.Class(name, fmt.Sprintf("all-counts/vmsas-flag-omitted=%v", omitVmsas))
+		}
+		if r.sev && !r.genoa {
+			ev.Class(name, fmt.Sprintf("milan/explicit-flag=%v", explicitMilan))
+		}
+		if svn > 9 {
+			ev.Class(name, "side-svn>9")
+		}
+		// a side file holding version 0 is an empty file and says nothing: it does not make a case non-trivial
+		ev.Case(name, (r.sev && r.tdx) || (side != "none" && svn != 0), fmt.Sprintf("%v|%v|%s|%d|%d|%d|%v|%v|%v|%v|%s", r.sev, r.tdx, side, svn, r.vmsas, len(r.shapes), r.early, r.svsm != nil, svsmImage, omitVmsas, mode), fmt.Sprintf("sev=%v/tdx=%v/side=%s", r.sev, r.tdx, side), func() any {
 			return map[string]any{"args": args[3:], "side_file": side, "svn": svn}
 		})
 	})
